@@ -1,7 +1,11 @@
 // Package vsync mirrors the parts of package sync that goleveldb uses, on top of vsched.
 package vsync
 
-import "verif/vsched"
+import (
+	"runtime"
+
+	"verif/vsched"
+)
 
 type Locker interface {
 	Lock()
@@ -194,9 +198,35 @@ func (p *Pool) Get() any {
 	return nil
 }
 
+// DoublePuts collects diagnostics when DebugPool is set: a byte buffer put into a pool that
+// already holds the same backing array.
+var lastPut map[*byte]string
+
+var (
+	DebugPool  bool
+	DoublePuts []string
+)
+
 func (p *Pool) Put(x any) {
 	if x == nil {
 		return
+	}
+	if DebugPool {
+		if b, ok := x.(*[]byte); ok && cap(*b) > 0 {
+			for _, it := range p.items {
+				if o, ok := it.(*[]byte); ok && cap(*o) > 0 && &(*o)[:1][0] == &(*b)[:1][0] {
+					buf := make([]byte, 4096)
+					buf = buf[:runtime.Stack(buf, false)]
+					DoublePuts = append(DoublePuts, "SECOND PUT:\n"+string(buf)+"\nFIRST PUT:\n"+lastPut[&(*b)[:1][0]])
+				}
+			}
+			buf := make([]byte, 4096)
+			buf = buf[:runtime.Stack(buf, false)]
+			if lastPut == nil {
+				lastPut = map[*byte]string{}
+			}
+			lastPut[&(*b)[:1][0]] = string(buf)
+		}
 	}
 	p.items = append(p.items, x)
 }
